@@ -66,6 +66,10 @@ def plan(tier, seed):
     for kind in KINDS:
         for mt in (axioms.NAMES if tier == "thorough" else ["log_squared_euclidean", "canberra"]):
             shards.append(("proc", kind, mt))
+    # the receiver of load() was itself constructed with a (different, unrelated) distance file
+    for kind in KINDS:
+        for mt in PRE_QUICK[:4]:
+            shards.append(("seq", kind, mt, "features", 3, "recv_pre"))
     for kind in KINDS:
         shards.append(("names", kind))
     # longer histories (save / mutate by predicting / save again to the same path / load ...)
@@ -183,7 +187,7 @@ def fn_behaviour(m, ds):
     return tuple(float(m.distance_fn(a.copy(), b.copy())).hex() for a in rows for b in rows)
 
 
-def run_sequence(kind, metric, mode, di, seq, seed, res=None):
+def run_sequence(kind, metric, mode, di, seq, seed, res=None, receiver=None):
     ds = DATASETS[di]
     tmpdir = tempfile.mkdtemp(prefix="c19-", dir=scratch_dir())
     try:
@@ -210,8 +214,15 @@ def run_sequence(kind, metric, mode, di, seq, seed, res=None):
                                 "save alters the original")
                     saved_state, saved_beh = before, fn_behaviour(orig, ds)
                 elif op == "load":
-                    loaded = construct(kind, "log_squared_euclidean" if metric != "log_squared_euclidean"
-                                       else "euclidean")
+                    other_metric = "log_squared_euclidean" if metric != "log_squared_euclidean" else "euclidean"
+                    if receiver == "recv_pre":
+                        # a receiver that was configured with pre-computed distances of its own
+                        of = os.path.join(tmpdir, "other.txt")
+                        k = len(ds["X"]) + len(ds["Q"])
+                        np.savetxt(of, np.array([[abs(i - j) * 7.5 + (i != j) for j in range(k)] for i in range(k)]))
+                        loaded = construct(kind, other_metric, of)
+                    else:
+                        loaded = construct(kind, other_metric)
                     loaded.load(path)
                     st = full_state(loaded)
                     if st != saved_state:
@@ -377,13 +388,16 @@ def run(shard, seed):
         res.outcome(shard)
         res.sample({"kind": shard[1], "metric": shard[2], "seq": ["save", "load-in-new-interpreter", "predict"]}, 1)
         return res
-    _, kind, metric, mode, depth = shard
+    _, kind, metric, mode, depth = shard[:5]
+    receiver = shard[5] if len(shard) > 5 else None
     seqs = sequences(depth, PRE_OPS if mode == "pre" else OPS)
+    if receiver:
+        seqs = [q for q in seqs if "load" in q]
     for di in range(len(DATASETS)):
         for seq in seqs:
             try:
                 with horizon(60.0):
-                    p, sym = run_sequence(kind, metric, mode, di, seq, seed, res)
+                    p, sym = run_sequence(kind, metric, mode, di, seq, seed, res, receiver)
             except Horizon as hz:
                 p, sym = str(hz), "no termination"
             res.evaluations += 1
@@ -393,7 +407,7 @@ def run(shard, seed):
                 res.nontrivial += 1
             if p:
                 res.violations.append(viol({"kind": kind, "metric": metric, "mode": mode,
-                                            "dataset": di, "seq": seq, "seed": seed}, p, sym))
+                                            "dataset": di, "seq": seq, "seed": seed, "receiver": receiver}, p, sym))
                 if res.full:
                     return res
                 break
@@ -411,7 +425,8 @@ def replay(case):
         r = Result()
         run_proc(p["kind"], p["metric"], 0, r)
         return r.violations[0] if r.violations else None
-    prob, sym = run_sequence(p["kind"], p["metric"], p["mode"], p["dataset"], p["seq"], p.get("seed", 0))
+    prob, sym = run_sequence(p["kind"], p["metric"], p["mode"], p["dataset"], p["seq"], p.get("seed", 0),
+                             receiver=p.get("receiver"))
     if prob:
         return viol(p, prob, sym)
     return None
